@@ -188,12 +188,13 @@ type c06Stream struct {
 	trlLen   int  // trailer block length measured on the wire
 	trlOpen  bool // a trailer block is being received (HEADERS seen, END_HEADERS not yet)
 	trlSeen  bool
-	gotFinal bool  // the final (non-1xx) response headers have been sent
-	n1xx     int   // informational responses sent so far
-	remain   int64 // Content-Length still to be read (-1: none declared)
-	readErr  bool  // a Read hit "more than declared Content-Length"
-	extended bool  // the stream needs the long form of the open token
-	cut      int   // >= 0: the request was cancelled after that many octets of its header block (openCancel)
+	gotFinal bool          // the final (non-1xx) response headers have been sent
+	n1xx     int           // informational responses sent so far
+	remain   int64         // Content-Length still to be read (-1: none declared)
+	readErr  bool          // a Read hit "more than declared Content-Length"
+	extended bool          // the stream needs the long form of the open token
+	hookGate chan struct{} // non-nil: writeRequest is held between stream id allocation and the HEADERS write
+	cut      int           // >= 0: the request was cancelled after that many octets of its header block (openCancel)
 }
 
 // reqDone: the client considers the request written - it has sent END_STREAM, or the request has
@@ -727,6 +728,7 @@ func (e *c06Env) creditOwed() int64 {
 type c06Shape struct {
 	head    bool
 	trailer int
+	delay   bool // the hook between stream id allocation and the HEADERS write blocks until released
 }
 
 func (e *c06Env) startRoundTrip(bodyLen int, known bool, padLen int, sh c06Shape) *c06Stream {
@@ -759,8 +761,16 @@ func (e *c06Env) startRoundTrip(bodyLen int, known bool, padLen int, sh c06Shape
 	if padLen > 0 {
 		req.Header.Set("X-Pad", strings.Repeat("~", padLen)) // '~' has a 13-bit Huffman code: the literal is sent raw
 	}
+	if sh.delay {
+		st.hookGate = make(chan struct{})
+	}
 	go func() {
-		res, err := e.cc.roundTrip(req, func(cs *clientStream) { st.stCh <- cs })
+		res, err := e.cc.roundTrip(req, func(cs *clientStream) {
+			st.stCh <- cs
+			if st.hookGate != nil {
+				<-st.hookGate
+			}
+		})
 		st.respCh <- c06Resp{res, err}
 	}()
 	return st
